@@ -5,8 +5,12 @@ EXTENDS Naturals, FiniteSets, TLC, Json
 Vals == 0..3
 VARIABLES par, pred
 vars == <<par, pred>>
-Init == /\ par \in [vary1 : BOOLEAN, vary2 : BOOLEAN, star : BOOLEAN, a1 : Vals, a2 : Vals, b1 : Vals, b2 : Vals]
-        /\ (par.star => ~par.vary1 /\ ~par.vary2)
+\* starpos: where a "*" member sits in the Vary list relative to the nominated names
+Init == /\ par \in [vary1 : BOOLEAN, vary2 : BOOLEAN, star : BOOLEAN, starpos : {"none", "only", "first", "last", "second-field"},
+                    a1 : Vals, a2 : Vals, b1 : Vals, b2 : Vals]
+        /\ (par.star <=> par.starpos # "none")
+        /\ (par.starpos = "only" => ~par.vary1 /\ ~par.vary2)
+        /\ (par.starpos \in {"first", "last", "second-field"} => par.vary1 \/ par.vary2)
         /\ pred = "?"
 Same == (par.vary1 => par.a1 = par.b1) /\ (par.vary2 => par.a2 = par.b2)
 Predict == IF par.star THEN "contact" ELSE IF Same THEN "hit" ELSE "contact"
